@@ -149,9 +149,10 @@ fn make_distinct(steps: &mut Vec<Rat>) {
         }
     }
 }
-/// The concrete axis family of DESIGN 5.0 for length n. Apart from the explicitly uniform member every
-/// axis has pairwise distinct interval lengths (a wrong-interval defect is invisible when the two
-/// confused intervals are equal).
+/// The concrete axis family of DESIGN 5.0 for length n. Apart from the explicitly uniform member and the two
+/// "partially equal" members every axis has pairwise distinct interval lengths (a wrong-interval defect is
+/// invisible when the two confused intervals are equal; a shortcut keyed on equal intervals is invisible when
+/// none are).
 pub fn axis_family(n: usize, count: usize, seed: u64) -> Vec<Axis> {
     let m = n - 1;
     let mut out: Vec<Axis> = vec![];
@@ -170,6 +171,10 @@ pub fn axis_family(n: usize, count: usize, seed: u64) -> Vec<Axis> {
     push!("geometric2", r(-3, 2), (0..m).map(|i| r(1 << i, 2)).collect(), false);
     // uniform
     push!("uniform", r(0, 1), vec![r(1, 1); m], true);
+    // partially equal intervals (a shortcut keyed on "the axis looks evenly spaced" must not fire here): all equal
+    // except one interval in the middle, and equal pairs
+    push!("uniform-except-middle", r(0, 1), (0..m).map(|i| if i == m / 2 { r(2, 1) } else { r(1, 1) }).collect(), true);
+    push!("equal-pairs", r(-2, 1), (0..m).map(|i| r(1 + (i / 2) as i128, 2)).collect(), true);
     // thirds / sevenths (non-dyadic), offset origin
     push!("thirds-sevenths", r(10, 3), (0..m).map(|i| if i % 2 == 0 { r(1 + i as i128, 3) } else { r(2 + i as i128, 7) }).collect(), false);
     // geometric ratio 1/2
